@@ -3,6 +3,7 @@
 //! queries of a file, one JSON line per query on stdout.
 //!
 //! dbprobe open|mem <queries-file>
+//! dbprobe memx <queries-file> <threads>
 use anything::{parse, query, Db, Description, Options};
 use std::io::Write;
 
@@ -11,6 +12,39 @@ fn main() {
     if args.len() < 3 {
         eprintln!("usage: dbprobe open|mem <queries-file>");
         std::process::exit(2);
+    }
+    if args[1] == "memx" {
+        // cold process, several sessions at once: N threads pass a barrier, each builds its own in-memory
+        // database and answers every query; output = one block per thread, headed by `=== thread <i>`
+        let n: usize = args.get(3).and_then(|s| s.parse().ok()).unwrap_or(4);
+        let text = std::fs::read_to_string(&args[2]).expect("queries file");
+        let barrier = std::sync::Barrier::new(n);
+        let blocks: Vec<Result<Vec<String>, String>> = std::thread::scope(|s| {
+            let hs: Vec<_> = (0..n)
+                .map(|_| {
+                    s.spawn(|| {
+                        barrier.wait();
+                        let db = Db::in_memory().map_err(|e| format!("{:#}", e))?;
+                        Ok(text.lines().map(|q| verif_harness::probe::answer(&db, q)).collect())
+                    })
+                })
+                .collect();
+            hs.into_iter().map(|h| h.join().unwrap_or_else(|_| Err("thread panicked".to_string()))).collect()
+        });
+        let out = std::io::stdout();
+        let mut out = out.lock();
+        for (i, b) in blocks.iter().enumerate() {
+            writeln!(out, "=== thread {}", i).unwrap();
+            match b {
+                Ok(lines) => {
+                    for l in lines {
+                        writeln!(out, "{}", l).unwrap();
+                    }
+                }
+                Err(e) => writeln!(out, "OPEN-FAILED {}", e).unwrap(),
+            }
+        }
+        return;
     }
     let db = match args[1].as_str() {
         "open" => Db::open(),
